@@ -1,9 +1,9 @@
 package rules
 
 import (
-	"strings"
-	"go/types"
 	"go/token"
+	"go/types"
+	"strings"
 
 	"golang.org/x/tools/go/ssa"
 
@@ -398,7 +398,10 @@ func c27(x *Ctx) {
 			if k, isK := va.(*ssa.Const); !(isK && k.IsNil()) {
 				// the version comes from the caller's own parameter (startup) or from a field of the running
 				// configuration that was stored from such a parameter
-				if _, fromParam := eng.Derives(va, func(v ssa.Value) bool { _, isP := v.(*ssa.Parameter); return isP && v.Type().String() == vp.Type().String() }, eng.FlowOpts{}); fromParam {
+				if _, fromParam := eng.Derives(va, func(v ssa.Value) bool {
+					_, isP := v.(*ssa.Parameter)
+					return isP && v.Type().String() == vp.Type().String()
+				}, eng.FlowOpts{}); fromParam {
 					ok = true
 				} else if _, fromField := eng.Derives(va, func(v ssa.Value) bool {
 					fr, _, isF := eng.LoadedField(v)
